@@ -2,6 +2,8 @@ package rules
 
 import (
 	"fmt"
+	"os"
+	"sort"
 	"go/types"
 	"go/token"
 	"strings"
@@ -15,6 +17,8 @@ func init() { register("C05", checkC05) }
 
 func checkC05(P *core.Program, R *core.Report) {
 	defer checkKeeperArgsNotNil(P, R)
+	defer checkShareValueFormulas(P, R)
+	defer checkMaximalRatioJoin(P, R)
 	// shares minted for a single-asset join never exceed the exact zero-fee value of the same
 	// expression: the fee ratio shrinks the counted deposit, the share formula is monotone in it,
 	// and the Dec→Int conversion truncates (direction analysis, DESIGN §2 R10)
@@ -251,10 +255,27 @@ func isAmmPoolRecord(o core.Origin) bool {
 // oracle): LP shares and swaps would be valued on a different ledger than the rest of the
 // same operation.  Decided for every consensus-reachable call site.
 func checkKeeperArgsNotNil(P *core.Program, R *core.Report) {
+	checkKeeperArgsNotNilIn(P, R, "C05-keeper-arg", []string{"x/amm/"}, nil)
+}
+
+// checkKeeperArgsNotNilIn: the same for the given packages; frozen[fnKey] names a caller
+// that asks for the raw book on purpose (with the reason).
+func checkKeeperArgsNotNilIn(P *core.Program, R *core.Report, rule string, pkgs []string, frozen map[string]string) {
 	subjects := P.Reach(P.FindRoots().Consensus())
 	n := 0
+	var fns []*ssa.Function
 	for _, fn := range P.Funcs {
-		if !subjects[fn] || core.IsGeneratedOrAux(P.File(fn.Pos())) || !strings.HasPrefix(core.PkgRel(fn), "x/amm/") {
+		fns = append(fns, fn)
+	}
+	sort.Slice(fns, func(i, j int) bool { return P.Key(fns[i]) < P.Key(fns[j]) })
+	for _, fn := range fns {
+		in := false
+		for _, p := range pkgs {
+			if strings.HasPrefix(core.PkgRel(fn), p) {
+				in = true
+			}
+		}
+		if !subjects[fn] || core.IsGeneratedOrAux(P.File(fn.Pos())) || !in {
 			continue // the amm's own pricing code; other modules may ask for the raw book on purpose
 		}
 		for _, c := range core.Calls(fn) {
@@ -285,11 +306,299 @@ func checkKeeperArgsNotNil(P *core.Program, R *core.Report) {
 				k, isConst := cc.Args[i+off].(*ssa.Const)
 				isNil := isConst && k.Value == nil
 				if isNil {
-					R.Add("C05-keeper-arg", P.Key(fn), "nil "+nt.Obj().Name()+" → "+P.CalleeKey(cc), P.Pos(P.InstrPos(c)), false,
-						"a keeper interface parameter receives nil: the callee falls back to a different ledger than the rest of the operation")
+					why, ok := frozen[P.Key(fn)]
+					R.Add(rule, P.Key(fn), "nil "+nt.Obj().Name()+" → "+P.CalleeKey(cc), P.Pos(P.InstrPos(c)), ok,
+						"a keeper interface parameter receives nil: the callee falls back to a different ledger than the rest of the operation. "+why)
 				}
 			}
 		}
 	}
-	R.Add("C05-keeper-arg", "-", "keeper interface arguments", "-", n > 0, fmt.Sprintf("%d keeper-interface arguments at consensus-reachable call sites, none nil", n))
+	R.Add(rule, "-", "keeper interface arguments", "-", n > 0, fmt.Sprintf("%d keeper-interface arguments at consensus-reachable call sites, none nil outside the frozen callers", n))
+}
+
+// checkScaled decides "value = k · spec with k within [0,1]" on the polynomial normal
+// form: the value's form (one final Trunc/Round stripped; a Ceil is a payout rounded up)
+// is renamed by roles, divided by the spec monomial, and what is left must not mention
+// any role (the value is proportional to the spec) and must range within [0,1] by the
+// direction engine's intervals of the remaining leaves (fees, bonuses) at that point.
+// So any spelling of spec × (1 − fee) passes, a fee added instead of subtracted, a wrong
+// denominator or a dropped factor does not.
+func checkScaled(P *core.Program, R *core.Report, rule, construct string, fn *ssa.Function, val ssa.Value, at ssa.Instruction,
+	roles func(key string, v ssa.Value) (string, bool), spec string, roleNames []string, what string) {
+	ff := P.Facts(fn)
+	key := P.Key(fn)
+	pos := P.Pos(P.InstrPos(at))
+	p, op := ff.PolyOf(val).Outer()
+	if op == "Ceil" {
+		R.Add(rule, key, construct, pos, false, what+": the amount is rounded up (Ceil); a payout must round down or to nearest")
+		return
+	}
+	rp, _ := p.Rename(roles)
+	S := core.ParsePoly(spec)
+	q := rp.Quo(S, nil)
+	for _, rn := range roleNames {
+		if q.Mentions(rn) {
+			R.Add(rule, key, construct, pos, false, fmt.Sprintf("%s: the amount is not proportional to %s (normal form %s; after dividing: %s)", what, spec, rp, q))
+			return
+		}
+	}
+	spc, err := loadRangeSpec("c03_ranges.json")
+	if err != nil {
+		R.Undecided(rule, key, construct, pos, err.Error())
+		return
+	}
+	E := core.NewRanger(P, spc)
+	ctx := E.TopCtx(fn)
+	it, ok := E.PolyRange(ctx, q, at)
+	if os.Getenv("ELYSLINT_POLY_DEBUG") != "" {
+		for _, k := range q.LeafKeys() {
+			if v := q.Leaf[k]; v != nil {
+				fmt.Fprintf(os.Stderr, "c05 scaled %s leaf %s = %s : %s why=%v\n", key, k, v, E.ValAt(ctx, v, at), E.Why)
+				if ph, ok := v.(*ssa.Phi); ok {
+					for _, e := range ph.Edges {
+						E2 := core.NewRanger(P, spc)
+						fmt.Fprintf(os.Stderr, "   edge %s = %s : %s exhausted=%v\n", e.Name(), e, E2.ValAt(E2.TopCtx(fn), e, at), E2.Exhausted)
+					}
+				}
+			}
+		}
+	}
+	in01 := ok && it.In01() && !E.Exhausted
+	R.Add(rule, key, construct, pos, in01, fmt.Sprintf("%s: amount = k·(%s) with k = %s ranging over %s (must lie within [0,1]). %s", what, spec, q, it, notes(E)))
+	for u := range E.Used {
+		R.Assume("range assumption used: " + u)
+	}
+}
+
+// checkShareValueFormulas: the value formulas of joins and exits (C05-value).
+func checkShareValueFormulas(P *core.Program, R *core.Report) {
+	const rule = "C05-value"
+	tupleCall := func(ff *core.FuncFacts, v ssa.Value, suffix string) bool {
+		v = ff.Fwd(v)
+		if ex, ok := v.(*ssa.Extract); ok && ex.Index == 0 {
+			v = ex.Tuple
+		}
+		c, ok := v.(*ssa.Call)
+		return ok && strings.HasSuffix(P.CalleeKey(c.Common()), suffix)
+	}
+	isTotalShares := func(ff *core.FuncFacts, v ssa.Value) bool {
+		if v == nil {
+			return false
+		}
+		return originsAll(ff, v, func(o core.Origin) bool {
+			return strings.HasSuffix(o.Path, ".TotalShares") || strings.HasSuffix(o.Path, ".TotalShares.Amount") ||
+				(o.Kind == "call" && strings.HasSuffix(o.Name, "GetTotalShares"))
+		})
+	}
+	// 1. exit value = TVL · shares / totalShares
+	if fn := P.Fn("x/amm/types.CalcExitValueWithoutSlippage"); fn != nil {
+		ff := P.Facts(fn)
+		n := 0
+		for _, ex := range ff.Exits() {
+			ret, ok := ex.Instr.(*ssa.Return)
+			if !ok || ex.Kind == core.ExitError || len(ret.Results) == 0 {
+				continue
+			}
+			n++
+			checkScaled(P, R, rule, "exit value ≤ TVL·shares/totalShares", fn, ret.Results[0], ret, func(_ string, v ssa.Value) (string, bool) {
+				switch {
+				case v == nil:
+					return "", false
+				case tupleCall(ff, v, "Pool.TVL"):
+					return "TVL", true
+				case ff.Fwd(v) == ssa.Value(fn.Params[4]):
+					return "SH", true
+				case isTotalShares(ff, v):
+					return "TS", true
+				}
+				return "", false
+			}, "TVL*SH/TS", []string{"TVL", "SH", "TS"}, "the value of exiting shares is at most their pro-rata share of the pool value")
+		}
+		if n == 0 {
+			R.Add(rule, P.Key(fn), "exit value", P.Pos(fn.Pos()), false, "no success return (anchor changed)")
+		}
+	} else {
+		R.Add(rule, "x/amm/types.CalcExitValueWithoutSlippage", "function", "-", false, "unresolved anchor")
+	}
+	// 2. CalcExitPool: every coin built there is either the oracle payout ≤ exitValue/price
+	//    or a pro-rata amount ≤ shares/totalShares · reserve
+	if fn := P.Fn("x/amm/types.CalcExitPool"); fn != nil {
+		ff := P.Facts(fn)
+		nOracle, nPro := 0, 0
+		roles := func(_ string, v ssa.Value) (string, bool) {
+			switch {
+			case v == nil:
+				return "", false
+			case tupleCall(ff, v, "CalcExitValueWithoutSlippage"):
+				return "EV", true
+			case tupleCall(ff, v, "GetAssetPriceFromDenom"):
+				return "PRICE", true
+			case ff.Fwd(v) == ssa.Value(fn.Params[4]):
+				return "SH", true
+			case isTotalShares(ff, v):
+				return "TS", true
+			}
+			for _, o := range ff.Origins(v) {
+				if os.Getenv("ELYSLINT_POLY_DEBUG") != "" {
+					fmt.Fprintf(os.Stderr, "c05 BAL? %s origin [%s]\n", v, o)
+				}
+				if o.Kind == "call" && strings.HasSuffix(o.Name, "GetTotalPoolLiquidity") {
+					return "BAL", true
+				}
+			}
+			return "", false
+		}
+		for _, c := range core.Calls(fn) {
+			if core.CalleeName(c.Common()) != "NewCoin" || len(c.Common().Args) != 2 {
+				continue
+			}
+			in, ok := c.(ssa.Instruction)
+			if !ok {
+				continue
+			}
+			amt := c.Common().Args[1]
+			inner, _ := ff.PolyOf(amt).Outer()
+			rp, _ := inner.Rename(roles)
+			switch {
+			case rp.Mentions("EV"):
+				nOracle++
+				checkScaled(P, R, rule, "oracle exit coin ≤ exitValue/price", fn, amt, in, roles, "EV/PRICE", []string{"EV", "PRICE", "SH", "TS", "BAL"},
+					"a single-asset exit pays at most the oracle value of the exiting shares")
+			case rp.Mentions("SH"):
+				nPro++
+				checkScaled(P, R, rule, "pro-rata exit coin ≤ shares/totalShares·reserve", fn, amt, in, roles, "SH*BAL/TS", []string{"EV", "PRICE", "SH", "TS", "BAL"},
+					"an all-asset exit pays at most the pro-rata part of each reserve")
+			}
+		}
+		if nOracle == 0 || nPro == 0 {
+			R.Add(rule, P.Key(fn), "exit coins", P.Pos(fn.Pos()), false, fmt.Sprintf("expected an oracle payout and a pro-rata payout built with NewCoin (found %d / %d; anchor changed)", nOracle, nPro))
+		}
+	} else {
+		R.Add(rule, "x/amm/types.CalcExitPool", "function", "-", false, "unresolved anchor")
+	}
+	// 3. oracle single-asset join: shares = totalShares · joinValue / TVL · k
+	if fn := P.Fn("x/amm/types.Pool.JoinPool"); fn != nil {
+		ff := P.Facts(fn)
+		n := 0
+		roles := func(_ string, v ssa.Value) (string, bool) {
+			switch {
+			case v == nil:
+				return "", false
+			case tupleCall(ff, v, "CalcJoinValueWithoutSlippage"):
+				return "JV", true
+			case tupleCall(ff, v, "Pool.TVL"):
+				return "TVL", true
+			case isTotalShares(ff, v):
+				return "TS", true
+			}
+			return "", false
+		}
+		for _, ex := range ff.Exits() {
+			ret, ok := ex.Instr.(*ssa.Return)
+			if !ok || ex.Kind == core.ExitError || len(ret.Results) < 2 {
+				continue
+			}
+			inner, _ := ff.PolyOf(ret.Results[1]).Outer()
+			rp, _ := inner.Rename(roles)
+			if !rp.Mentions("JV") && !rp.Mentions("TVL") {
+				continue
+			}
+			n++
+			checkScaled(P, R, rule, "oracle join shares ≤ totalShares·joinValue/TVL", fn, ret.Results[1], ret, roles, "TS*JV/TVL", []string{"JV", "TVL", "TS"},
+				"a single-asset join of an oracle pool mints at most the shares its oracle value buys")
+		}
+		if n == 0 {
+			R.Add(rule, P.Key(fn), "oracle join shares", P.Pos(fn.Pos()), false, "no success return whose share amount derives from the join value (anchor changed)")
+		}
+	} else {
+		R.Add(rule, "x/amm/types.Pool.JoinPool", "function", "-", false, "unresolved anchor")
+	}
+}
+
+// checkMaximalRatioJoin: an all-asset join mints totalShares × the SMALLEST deposit/reserve
+// ratio over the deposited coins (so no asset is credited beyond what was paid in), each
+// ratio pairing a coin's amount with the reserve of that same coin's denom.
+func checkMaximalRatioJoin(P *core.Program, R *core.Report) {
+	const rule = "C05-value"
+	fn := P.Fn("x/amm/types.MaximalExactRatioJoin")
+	if fn == nil {
+		R.Add(rule, "x/amm/types.MaximalExactRatioJoin", "function", "-", false, "unresolved anchor")
+		return
+	}
+	ff := P.Facts(fn)
+	key := P.Key(fn)
+	// the element of tokensIn a value is read from ("" when it is not one)
+	elemOf := func(v ssa.Value, field string) string {
+		for _, o := range ff.Origins(v) {
+			if o.Kind == "param" && o.Name == fn.Params[1].Name() && (o.Path == "[]"+field || o.Path == "[]") {
+				return "tokensIn[]"
+			}
+		}
+		return ""
+	}
+	pairOK := true
+	roles := func(_ string, v ssa.Value) (string, bool) {
+		if v == nil {
+			return "", false
+		}
+		if os.Getenv("ELYSLINT_POLY_DEBUG") != "" {
+			for _, o := range ff.Origins(v) {
+				fmt.Fprintf(os.Stderr, "c05 maxratio leaf %s origin kind=%s name=%s path=%s val=%v\n", v, o.Kind, o.Name, o.Path, o.Val)
+			}
+		}
+		if g, ok := ff.Fwd(v).(*ssa.UnOp); ok {
+			if gl, isG := g.X.(*ssa.Global); isG && gl.Name() == "LegacyMaxSortableDec" {
+				return "INF", true
+			}
+		}
+		if e := elemOf(v, ".Amount"); e != "" {
+			return "AMT", true
+		}
+		if c, ok := ff.Fwd(v).(*ssa.Call); ok && strings.HasPrefix(core.CalleeName(c.Common()), "AmountOf") && len(c.Common().Args) == 2 {
+			fromLiq := false
+			for _, o := range ff.Origins(c.Common().Args[0]) {
+				if o.Kind == "call" && strings.HasSuffix(o.Name, "GetTotalPoolLiquidity") {
+					fromLiq = true
+				}
+			}
+			if fromLiq {
+				return "BAL", true
+			}
+		}
+		for _, o := range ff.Origins(v) {
+			if strings.HasSuffix(o.Path, ".TotalShares") || strings.HasSuffix(o.Path, ".TotalShares.Amount") || (o.Kind == "call" && strings.HasSuffix(o.Name, "GetTotalShares")) {
+				return "TS", true
+			}
+		}
+		return "", false
+	}
+	// pairing: every reserve lookup in a ratio uses the denom of the coin whose amount it divides
+	for _, c := range core.Calls(fn) {
+		if !strings.HasPrefix(core.CalleeName(c.Common()), "AmountOf") || len(c.Common().Args) != 2 {
+			continue
+		}
+		if elemOf(c.Common().Args[1], ".Denom") == "" {
+			pairOK = false
+		}
+	}
+	spec := core.MakeOpaque("MinAcc", nil, core.ParsePoly("INF"), core.ParsePoly("AMT/BAL")).Mul(core.ParsePoly("TS"))
+	n := 0
+	for _, ex := range ff.Exits() {
+		ret, ok := ex.Instr.(*ssa.Return)
+		if !ok || ex.Kind == core.ExitError || len(ret.Results) == 0 {
+			continue
+		}
+		n++
+		inner, op := ff.PolyOf(ret.Results[0]).Outer()
+		rp, _ := inner.Rename(roles)
+		if os.Getenv("ELYSLINT_POLY_DEBUG") != "" {
+			fmt.Fprintf(os.Stderr, "c05 maxratio %s(%s) vs %s\n", op, rp, spec)
+		}
+		good := (op == "Trunc" || op == "Round" || op == "") && rp.Equal(spec) && pairOK
+		R.Add(rule, key, "all-asset join shares = totalShares · min over coins of amount/reserve", P.Pos(P.InstrPos(ret)), good,
+			fmt.Sprintf("shares are %s(%s); expected Trunc(%s) with every reserve looked up by the coin's own denom (pairing ok: %v)", op, rp, spec, pairOK))
+	}
+	if n == 0 {
+		R.Add(rule, key, "all-asset join shares", P.Pos(fn.Pos()), false, "no success return (anchor changed)")
+	}
 }
